@@ -40,6 +40,9 @@ pub struct TokenParser {
     // tokens currently in KV cache
     llm_tokens: Vec<TokenId>,
     llm_bytes: Vec<u8>,
+    // indices in llm_tokens of EOS tokens that ended the sequence, i.e., contributed no bytes
+    // (an EOS token named by the grammar goes through apply_token() like any other token)
+    bare_eos_idx: Vec<usize>,
 
     grm_prefix: Vec<u8>,
     is_fresh: bool,
@@ -115,6 +118,7 @@ impl TokenParser {
             eos_tokens,
             llm_tokens: Vec::new(),
             llm_bytes: Vec::new(),
+            bare_eos_idx: Vec::new(),
             grm_prefix: Vec::new(),
             max_tokens_total: max_tokens,
             last_bias_time: Duration::from_secs(0),
@@ -396,9 +400,9 @@ impl TokenParser {
 
         let new_len = self.llm_tokens.len() - n_tokens;
         let mut bytes_to_drop = 0;
-        for tok in &self.llm_tokens[new_len..] {
-            if self.eos_tokens.contains(tok) {
-                // doesn't count; we hope it's last though...
+        for (idx, tok) in self.llm_tokens.iter().enumerate().skip(new_len) {
+            if self.bare_eos_idx.contains(&idx) {
+                // ended the sequence without reaching the parser: no bytes
                 bytes_to_drop += 0;
             } else {
                 bytes_to_drop += self.tok_trie().token_len(*tok);
@@ -415,6 +419,7 @@ impl TokenParser {
 
         self.max_tokens_total = self.max_tokens_total.saturating_add(n_tokens);
         self.llm_tokens.truncate(new_len);
+        self.bare_eos_idx.retain(|&idx| idx < new_len);
         self.llm_bytes
             .truncate(self.llm_bytes.len() - bytes_to_drop);
         self.clear_caches();
@@ -633,6 +638,7 @@ impl TokenParser {
                         self.parser.additional_backtrack(additional_backtrack_bytes);
                     }
                     self.llm_tokens.truncate(token_ptr);
+                    self.bare_eos_idx.retain(|&idx| idx < token_ptr);
                     return Ok(backtrack_tokens);
                 }
             }
@@ -830,6 +836,7 @@ impl TokenParser {
                     accepting
                 );
                 if accepting {
+                    self.bare_eos_idx.push(self.llm_tokens.len());
                     self.llm_tokens.push(token);
                     return Ok(0);
                 }
